@@ -38,11 +38,11 @@ pub(crate) fn rig_with(pool_size: u16, tail: u16) -> Rig {
     let sq = SubmissionQueue(Submissions::new(k::build_shared(2, false, false)));
     let bufs = unsafe { alloc(Layout::from_size_align(POOL * CAP, 8).unwrap()) };
     let ring = unsafe { alloc_zeroed(Layout::from_size_align(POOL * 16, 16).unwrap()) };
-    let mut i = 0;
-    while i < POOL * CAP {
-        unsafe { bufs.add(i).write(CANARY) };
-        i += 1;
-    }
+    // unrolled: a harness loop would force a large global unwind bound on
+    // harnesses that also contain recursive a10 code (C10)
+    macro_rules! canary { ($($i:expr),*) => { $( unsafe { bufs.add($i).write(CANARY) }; )* } }
+    canary!(0, 1, 2, 3, 4, 5, 6, 7);
+    const _: () = assert!(POOL * CAP == 8);
     let pool = ReadBufPool {
         id: 7,
         sq,
